@@ -1,13 +1,13 @@
 import DaskModel.Model.Structural
 /-
-`dask/array/reshape.py::reshape_rechunk` in full (C24): the two-pointer walk over the input / output axes from the
-right with its five branches, `_smooth_chunks`, `_cal_max_chunk_size`, `_calc_lower_dimension_chunks` (n axes), on top
+`dask/array/reshape.py::reshape_rechunk` in full (C24; as of `fix: reshape_rechunk indexed the shapes with a negative axis`):
+the two-pointer walk over the input / output axes from the right with its five branches, `_smooth_chunks`, `_cal_max_chunk_size`, `_calc_lower_dimension_chunks` (n axes), on top
 of `expand_tuple` / `contract_tuple` (Model/Structural.lean); and the block-level semantics of `reshape`'s graph
 (`blocksFlat`: the C-order data of every block, blocks in `itertools.product` order).
 
 Python                                                              Lean
 ------                                                              ----
-inshape[ii] with a negative ii (Python wraps)                       `pyIdx`
+inshape[ii] if ii >= 0 else 1                                       `dimAt` (state: `ni = ii + 1`, `no = oi + 1`)
 while ileft >= 0 and reduce(mul, inshape[ileft:ii+1]) < dout        `findLeft`
 _cal_max_chunk_size                                                 `calMax`
 _calc_lower_dimension_chunks                                        `lowerAll`
@@ -31,11 +31,6 @@ inductive RErr where
   deriving Repr, DecidableEq
 
 def prod (l : List Nat) : Nat := l.foldr (· * ·) 1
-
-/-- Python's `l[i]` for a possibly negative `i`: the position, or `none` = IndexError -/
-def pyIdx (n : Nat) (i : Int) : Option Nat :=
-  if 0 ≤ i then (if i.toNat < n then some i.toNat else none)
-  else (if (-i).toNat ≤ n then some (n - (-i).toNat) else none)
 
 /-- `l[a : b]` for `0 ≤ a` -/
 def slice {α} (l : List α) (a b : Nat) : List α := (l.drop a).take (b - a)
@@ -109,8 +104,10 @@ def findLeft (shape : List Nat) (i target : Nat) : Nat → Option Nat
   | k + 1 => if prod (slice shape k (i + 1)) < target then findLeft shape i target k else some k
 
 structure RRState where
-  ii : Int
-  oi : Int
+  /-- `ii + 1`: the number of input axes still to be visited -/
+  ni : Nat
+  /-- `oi + 1` -/
+  no : Nat
   ri : List (Option (List Nat))
   ro : List (Option (List Nat))
   /-- `(number of input axes, number of output axes)` consumed by each iteration, leftmost first -/
@@ -118,10 +115,11 @@ structure RRState where
   deriving Repr
 
 /-- `l[start + j] = vals[j]` -/
-def setRange (l : List (Option (List Nat))) (start : Nat) (vals : List (List Nat)) : List (Option (List Nat)) :=
-  (vals.zipIdx).foldl (fun acc p => acc.set (start + p.2) (some p.1)) l
+def setRange (l : List (Option (List Nat))) : Nat → List (List Nat) → List (Option (List Nat))
+  | _, [] => l
+  | start, v :: vs => setRange (l.set start (some v)) (start + 1) vs
 
-/-- the `din < dout` branch (`i`, `o` = the non-negative `ii`, `oi`) -/
+/-- the `din < dout` branch (`i = ii`, `o = oi`) -/
 def mergeBranch (inshape : List Nat) (inchunks : List (List Nat)) (st : RRState) (i o dout : Nat) : Except RErr RRState :=
   match findLeft inshape i dout i with
   | none => if i + 1 = inshape.length then .error .notImpl else .error .other
@@ -133,7 +131,7 @@ def mergeBranch (inshape : List Nat) (inchunks : List (List Nat)) (st : RRState)
         let ri := setRange st.ri 0 (inchunks.take (i + 1))
         let reps := prod ((slice inchunks ileft i).map List.length)
         let ro := st.ro.set o (some ((List.replicate reps (inchunks.getD i [])).flatten))
-        .ok { ii := (ileft : Int) - 1, oi := (o : Int) - 1, ri := ri, ro := ro, groups := (i + 1 - ileft, 1) :: st.groups }
+        .ok { ni := ileft, no := o, ri := ri, ro := ro, groups := (i + 1 - ileft, 1) :: st.groups }
       else
         let fulls := (slice inshape (ileft + 1) (i + 1)).map (fun d => [d])
         let red := prod ((slice inchunks (ileft + 1) (i + 1)).map List.length)
@@ -144,7 +142,7 @@ def mergeBranch (inshape : List Nat) (inchunks : List (List Nat)) (st : RRState)
           match smoothGroup maxIn (g0.length + 1) g0 with
           | .error e => .error e
           | .ok g =>
-            .ok { ii := (ileft : Int) - 1, oi := (o : Int) - 1, ri := setRange st.ri ileft g,
+            .ok { ni := ileft, no := o, ri := setRange st.ri ileft g,
                   ro := st.ro.set o (some (lowerAll g)), groups := (i + 1 - ileft, 1) :: st.groups }
 
 /-- the `din > dout` branch -/
@@ -166,45 +164,49 @@ def splitBranch (outshape : List Nat) (inchunks : List (List Nat)) (st : RRState
           match smoothGroup maxIn (g0.length + 1) g0 with
           | .error e => .error e
           | .ok g =>
-            .ok { ii := (i : Int) - 1, oi := (oleft : Int) - 1, ri := st.ri.set i (some (lowerAll g)),
+            .ok { ni := i, no := oleft, ri := st.ri.set i (some (lowerAll g)),
                   ro := setRange st.ro oleft g, groups := (1, o + 1 - oleft) :: st.groups }
 
-/-- one iteration of `while ii >= 0 or oi >= 0` -/
+/-- `shape[ii] if ii >= 0 else 1` with `n = ii + 1` -/
+def dimAt (shape : List Nat) (n : Nat) : Nat := if n = 0 then 1 else shape.getD (n - 1) 0
+
+/-- one iteration of `while ii >= 0 or oi >= 0` (after `fix: reshape_rechunk … negative axis`: a side that has run out of
+    axes counts as length one) -/
 def rrStep (inshape outshape : List Nat) (inchunks : List (List Nat)) (st : RRState) : Except RErr RRState :=
-  match pyIdx inshape.length st.ii, pyIdx outshape.length st.oi with
-  | some i, some o =>
-    let din := inshape.getD i 0
-    let dout := outshape.getD o 0
-    if din = dout then
-      match inchunks[i]? with
-      | none => .error .index
-      | some c =>
-        .ok { ii := st.ii - 1, oi := st.oi - 1, ri := st.ri.set i (some c), ro := st.ro.set o (some c),
-              groups := (if st.ii < 0 then 0 else 1, if st.oi < 0 then 0 else 1) :: st.groups }
-    else if din = 1 then
-      .ok { st with ii := st.ii - 1, ri := st.ri.set i (some [1]), groups := (if st.ii < 0 then 0 else 1, 0) :: st.groups }
-    else if dout = 1 then
-      .ok { st with oi := st.oi - 1, ro := st.ro.set o (some [1]), groups := (0, if st.oi < 0 then 0 else 1) :: st.groups }
-    else if st.ii < 0 ∨ st.oi < 0 then .error .other
-    else if din < dout then mergeBranch inshape inchunks st i o dout
-    else splitBranch outshape inchunks st i o din
-  | _, _ => .error .index
+  let i := st.ni - 1
+  let o := st.no - 1
+  let din := dimAt inshape st.ni
+  let dout := dimAt outshape st.no
+  if st.ni ≠ 0 ∧ st.no ≠ 0 ∧ din = dout then
+    match inchunks[i]? with
+    | none => .error .index
+    | some c => .ok { ni := i, no := o, ri := st.ri.set i (some c), ro := st.ro.set o (some c), groups := (1, 1) :: st.groups }
+  else if din = 1 ∧ st.ni ≠ 0 then
+    .ok { st with ni := i, ri := st.ri.set i (some [1]), groups := (1, 0) :: st.groups }
+  else if dout = 1 ∧ st.no ≠ 0 then
+    .ok { st with no := o, ro := st.ro.set o (some [1]), groups := (0, 1) :: st.groups }
+  else if st.ni = 0 ∨ st.no = 0 then .error .other     -- `reduce(mul, shape[-2:0])` of an empty slice: TypeError
+  else if din < dout then mergeBranch inshape inchunks st i o dout
+  else splitBranch outshape inchunks st i o din
 
 def rrLoop (inshape outshape : List Nat) (inchunks : List (List Nat)) : Nat → RRState → Except RErr RRState
-  | 0, st => if st.ii < 0 ∧ st.oi < 0 then .ok st else .error .other
+  | 0, st => if st.ni = 0 ∧ st.no = 0 then .ok st else .error .other
   | fuel + 1, st =>
-    if st.ii < 0 ∧ st.oi < 0 then .ok st
+    if st.ni = 0 ∧ st.no = 0 then .ok st
     else match rrStep inshape outshape inchunks st with
       | .error e => .error e
       | .ok st' => rrLoop inshape outshape inchunks fuel st'
+
+/-- `ii = len(inshape) - 1; oi = len(outshape) - 1; result_inchunks = [None …]; result_outchunks = [None …]` -/
+def initState (inshape outshape : List Nat) : RRState :=
+  { ni := inshape.length, no := outshape.length, ri := List.replicate inshape.length none,
+    ro := List.replicate outshape.length none, groups := [] }
 
 /-- `reshape_rechunk(inshape, outshape, inchunks)` ↦ `(result_inchunks, result_outchunks, groups)`;
     an entry `none` = the axis was never assigned (`None` stays in the returned tuple) -/
 def reshapeRechunk (inshape outshape : List Nat) (inchunks : List (List Nat)) :
     Except RErr (List (Option (List Nat)) × List (Option (List Nat)) × List (Nat × Nat)) :=
-  let st0 : RRState := { ii := (inshape.length : Int) - 1, oi := (outshape.length : Int) - 1,
-                         ri := List.replicate inshape.length none, ro := List.replicate outshape.length none, groups := [] }
-  match rrLoop inshape outshape inchunks (inshape.length + outshape.length + 1) st0 with
+  match rrLoop inshape outshape inchunks (inshape.length + outshape.length + 1) (initState inshape outshape) with
   | .error e => .error e
   | .ok st => .ok (st.ri, st.ro, st.groups)
 
